@@ -194,14 +194,30 @@ func (s *srvProto) DoClose(ctx context.Context) {
 	}
 }
 
-type cliProto struct{ o *obs }
+// cliProto is the protocol object of ONE TarsClient; the observer is exchanged for every
+// connection of that client (reconnect histories).
+type cliProto struct {
+	mu sync.Mutex
+	o  *obs
+}
+
+func (c *cliProto) get() *obs {
+	c.mu.Lock()
+	defer c.mu.Unlock()
+	return c.o
+}
+func (c *cliProto) set(o *obs) {
+	c.mu.Lock()
+	c.o = o
+	c.mu.Unlock()
+}
 
 func (c *cliProto) ParsePackage(buff []byte) (int, int) {
 	n, st := realClientProto.ParsePackage(buff)
-	c.o.onParse(buff, n, st)
+	c.get().onParse(buff, n, st)
 	return n, st
 }
-func (c *cliProto) Recv(pkg []byte) { c.o.onDeliver(pkg) }
+func (c *cliProto) Recv(pkg []byte) { c.get().onDeliver(pkg) }
 
 // ---------------------------------------------------------------------------------------------
 // servers (real transport.TarsServer, one connection at a time each)
@@ -363,6 +379,27 @@ func waitDone(ch chan struct{}, d time.Duration) bool {
 
 // runServerCase: the harness is the TCP client of a real TarsServer.
 func runServerCase(s *server, chunks [][]byte, total int) (out outcome) {
+	return runServerConn(s, chunks, total, "fin")
+}
+
+// runServerSession: several connections, one after the other, to the SAME TarsServer (same
+// tcpHandler); each ends as scripted ("fin": half-close, "rst": reset), possibly inside a packet.
+func runServerSession(s *server, conns [][][]byte, ends []string) []outcome {
+	outs := make([]outcome, len(conns))
+	for k, chunks := range conns {
+		total := 0
+		for _, c := range chunks {
+			total += len(c)
+		}
+		outs[k] = runServerConn(s, chunks, total, ends[k])
+		if outs[k].Err != "" || outs[k].Runaway {
+			break
+		}
+	}
+	return outs
+}
+
+func runServerConn(s *server, chunks [][]byte, total int, end string) (out outcome) {
 	o := newObs(total)
 	conn, err := net.DialTimeout("tcp", s.addr, 5*time.Second)
 	if err != nil {
@@ -392,8 +429,13 @@ func runServerCase(s *server, chunks [][]byte, total int) (out outcome) {
 		o.mu.Lock()
 		out.ClosedByIt = o.closed || isDone(eof)
 		o.mu.Unlock()
-		// end of stream: the loop sees EOF, waits for its handlers, closes, calls DoClose
-		conn.(*net.TCPConn).CloseWrite()
+		// end of stream: the loop sees EOF (or a reset), waits for its handlers, closes, calls DoClose
+		if end == "rst" {
+			conn.(*net.TCPConn).SetLinger(0)
+			conn.Close()
+		} else {
+			conn.(*net.TCPConn).CloseWrite()
+		}
 		if !o.wait(closeTimeout, func() bool { return o.closed }) {
 			out.Anomalies = append(out.Anomalies, "DoClose not observed after EOF")
 			out.CloseTimeout = true
@@ -409,55 +451,102 @@ func runServerCase(s *server, chunks [][]byte, total int) (out outcome) {
 
 // runClientCase: the harness is the TCP server a real TarsClient connects to.
 func runClientCase(ln net.Listener, mode string, chunks [][]byte, total int) (out outcome) {
-	o := newObs(total)
+	return runClientSession(ln, mode, [][][]byte{chunks}, []string{"fin"})[0]
+}
+
+// runClientSession: ONE TarsClient, several connections one after the other. The scripted peer
+// ends each connection as told ("fin": half-close, then the client closes; "rst": reset),
+// wherever the scripted chunks end - possibly inside a packet. The client reconnects on the next
+// Send (connection.ReConnect starts a new connection.recv).
+func runClientSession(ln net.Listener, mode string, conns [][][]byte, ends []string) []outcome {
+	outs := make([]outcome, len(conns))
 	conf := &transport.TarsClientConf{Proto: "tcp", QueueLen: 16, IdleTimeout: time.Hour,
 		WriteTimeout: 5 * time.Second, DialTimeout: 5 * time.Second}
 	if mode == "rt" {
 		conf.ReadTimeout = 25 * time.Millisecond
 	}
-	cl := transport.NewTarsClient(ln.Addr().String(), &cliProto{o}, conf)
-	if err := cl.Send([]byte{0, 0, 0, 4}); err != nil { // dials; starts connection.recv / send
-		out.Err = "client send: " + err.Error()
-		return
+	if ln == nil {
+		// a history gets its own listener: a connection the client may open on its own account
+		// (retry of its old sender) must not be mistaken for the next case's connection
+		l, err := net.Listen("tcp", "127.0.0.1:0")
+		if err != nil {
+			outs[0].Err = "listen: " + err.Error()
+			return outs
+		}
+		defer l.Close()
+		ln = l
 	}
-	ln.(*net.TCPListener).SetDeadline(time.Now().Add(10 * time.Second))
-	conn, err := ln.Accept()
-	if err != nil {
-		out.Err = "accept: " + err.Error()
-		return
-	}
-	defer conn.Close()
+	proto := &cliProto{}
+	cl := transport.NewTarsClient(ln.Addr().String(), proto, conf)
 	defer cl.Close()
-	eof := peerReader(conn)
+	for k, chunks := range conns {
+		total := 0
+		for _, c := range chunks {
+			total += len(c)
+		}
+		out := &outs[k]
+		o := newObs(total)
+		proto.set(o)
+		// (re)connect: Send dials when the client knows its connection is gone. After a reset the
+		// old sender may still swallow one request: keep asking until a new connection arrives.
+		var conn net.Conn
+		deadline := time.Now().Add(15 * time.Second)
+		for conn == nil {
+			if err := cl.Send([]byte{0, 0, 0, 4}); err != nil {
+				out.Err = "client send: " + err.Error()
+				return outs
+			}
+			wait := 10 * time.Second
+			if k > 0 {
+				wait = 300 * time.Millisecond
+			}
+			ln.(*net.TCPListener).SetDeadline(time.Now().Add(wait))
+			c, err := ln.Accept()
+			if err == nil {
+				conn = c
+			} else if time.Now().After(deadline) || k == 0 {
+				out.Err = "accept: " + err.Error()
+				return outs
+			}
+		}
+		eof := peerReader(conn)
 
-	drive(o, conn, chunks, mode == "rt", &out)
+		drive(o, conn, chunks, mode == "rt", out)
 
-	o.mu.Lock()
-	errored, runaway := o.errored, o.runaway
-	o.mu.Unlock()
-	switch {
-	case runaway:
-	case errored:
-		out.ClosedByIt = waitDone(eof, closeTimeout)
-		out.CloseTimeout = !out.ClosedByIt
-	default:
-		out.ClosedByIt = isDone(eof)
-		conn.(*net.TCPConn).CloseWrite()
-		if !waitDone(eof, closeTimeout) {
-			out.Anomalies = append(out.Anomalies, "client did not close after EOF")
-			out.CloseTimeout = true
+		o.mu.Lock()
+		errored, runaway := o.errored, o.runaway
+		o.mu.Unlock()
+		switch {
+		case runaway:
+		case errored:
+			out.ClosedByIt = waitDone(eof, closeTimeout)
+			out.CloseTimeout = !out.ClosedByIt
+		case ends[k] == "rst":
+			out.ClosedByIt = isDone(eof)
+			conn.(*net.TCPConn).SetLinger(0)
+		default:
+			out.ClosedByIt = isDone(eof)
+			conn.(*net.TCPConn).CloseWrite()
+			if !waitDone(eof, closeTimeout) {
+				out.Anomalies = append(out.Anomalies, "client did not close after EOF")
+				out.CloseTimeout = true
+			}
+		}
+		conn.Close()
+		// the loop has returned (it closed the connection); every PackageFull answer started exactly
+		// one `go Recv(pkg)`: wait for those goroutines, then give stray ones a chance to show up.
+		if !runaway {
+			o.wait(syncTimeout, func() bool { return len(o.delivered) >= len(o.fullSeq) })
+		}
+		for i := 0; i < 20; i++ {
+			runtime.Gosched()
+		}
+		finish(o, out)
+		if runaway || out.CloseTimeout {
+			break
 		}
 	}
-	// the loop has returned (it closed the connection); every PackageFull answer started exactly
-	// one `go Recv(pkg)`: wait for those goroutines, then give stray ones a chance to show up.
-	if !runaway {
-		o.wait(syncTimeout, func() bool { return len(o.delivered) >= len(o.fullSeq) })
-	}
-	for i := 0; i < 20; i++ {
-		runtime.Gosched()
-	}
-	finish(o, &out)
-	return
+	return outs
 }
 
 // ---------------------------------------------------------------------------------------------
